@@ -146,7 +146,9 @@ class CallMixin:
             b = truth(self.ev(node.args[1], st))
         except PathEnd:
             if self.concrete_spec:
-                return False
+                # a cell outside the concrete buffer does not exist: nothing to compare
+                # (out-of-bounds accesses of the real code are caught natively by ASan)
+                return True
             raise
         finally:
             if a is not True:
@@ -516,7 +518,7 @@ class CallMixin:
         c = CONTRACTS.get(name)
         if finfo is None and c is None:
             raise Unsupported('call to unknown function %s (line %s in %s)' % (name, getattr(node, 'lineno', '?'), self.fname))
-        if c is not None and not c.inline:
+        if c is not None and not c.inline and not (self.mode == 'run' and finfo is not None):
             return self.call_contract(c, finfo, args, kwargs, node, st)
         if finfo is None:
             raise Unsupported('no body for %s' % name)
